@@ -225,4 +225,15 @@ example : (match pkFromBytes 512 (9 :: List.replicate 896 0) with
 example : (match pkFromBytes 512 (9 :: List.replicate 896 255) with
     | .ok (.error e) => e == .BadFieldElementEncoding | _ => false) = true := by decide +kernel
 
+/-- … nor to the same signature object: two byte strings that `Signature::from_bytes` decodes to the same (salt, body)
+    are equal (every byte string, both variants) -/
+theorem signature_decode_injective (N : Nat) (b b' : List Nat) (salt s : List Nat)
+    (h1 : sigFromBytes N b = .ok (.ok (salt, s))) (h2 : sigFromBytes N b' = .ok (.ok (salt, s))) : b = b' := by
+  obtain ⟨r, hr, hs⟩ := sig_strict N b
+  obtain ⟨r', hr', hs'⟩ := sig_strict N b'
+  rw [h1] at hr; rw [h2] at hr'
+  have e1 : r = .ok (salt, s) := (Res.ok.inj hr).symm
+  have e2 : r' = .ok (salt, s) := (Res.ok.inj hr').symm
+  rw [← (hs salt s e1).1, ← (hs' salt s e2).1]
+
 end Falcon.Props.C06
